@@ -35,6 +35,10 @@ type SigDef struct {
 	// NoNoise (end-to-end plays): a whole-line ts_now pattern that leaves out
 	// what the shell itself prints on stderr.
 	NoNoise bool
+	// Skip: the time stamp is the (Skip+1)-th token of the line (deltasecs
+	// only): two signals of one role can then read two different stamps off
+	// the same line.
+	Skip int
 }
 
 var kindNames = []string{"event", "scalar", "delta"}
@@ -61,6 +65,7 @@ func (s *SigDef) Pattern() string {
 			ts = `(?P<ts_log>\S+ \S+) `
 		}
 	}
+	ts = strings.Repeat(`\S+ `, s.Skip) + ts
 	if s.ValRe == "whole" {
 		// the shipped examples' shape: everything (after the time stamp) is
 		// the event text - possibly nothing at all
@@ -737,6 +742,12 @@ func (l *LineGen) IntentFor(s *SigDef, nums map[string]*NumTok) Intent {
 	toks := l.tokens()
 	var it Intent
 	var body []string
+	if s.Skip > 0 {
+		if len(toks) <= s.Skip {
+			return it
+		}
+		toks = toks[s.Skip:]
+	}
 	switch s.Group {
 	case "now":
 		body = toks
@@ -897,8 +908,13 @@ func (g *Gen) Lines(c *CfgGen, n int, nums map[string]*NumTok) []ItemGen {
 		if g.R.Intn(6) == 0 {
 			kinds = []string{"delta", "rfc", "log", "deltaX"}
 		}
+		for _, s := range r.Sigs {
+			if s.Skip > 0 && g.R.Intn(4) != 0 {
+				kinds = []string{"delta2"}
+			}
+		}
 		l.TsKind = g.pick(kinds)
-		if t < 0 && (l.TsKind == "delta") {
+		if t < 0 && (l.TsKind == "delta" || l.TsKind == "delta2") {
 			t = -t
 		}
 		l.TsNs = nsOf16(t)
@@ -923,6 +939,17 @@ func (g *Gen) Lines(c *CfgGen, n int, nums map[string]*NumTok) []ItemGen {
 				s = "0" + s
 			}
 			l.TsTokens = []string{s}
+		case "delta2":
+			// two stamps on one line, a fraction of a millisecond to 1/16 s
+			// apart (or equal); dyadic, so that delta*1e9 stays exact
+			off := []float64{1.0 / 4096, 1.0 / 8192, 3.0 / 4096, -1.0 / 4096, 1.0 / 16, 0, 1.0 / 4096}[g.R.Intn(7)]
+			if t > 16*1000000 {
+				off = 0.5
+			}
+			if float64(t)/16+off < 0 {
+				off = 0
+			}
+			l.TsTokens = []string{secs, fmtPlain(float64(t)/16 + off)}
 		case "deltaX":
 			switch g.R.Intn(3) {
 			case 0:
@@ -1077,4 +1104,29 @@ func (g *Gen) PrefixLines(actors []string, nums map[string]*NumTok, n int) []Ite
 		items = append(items, ItemGen{Kind: "line", Line: l})
 	}
 	return items
+}
+
+// ForceTwoStamps makes the first two signals of the first role read their
+// time stamps off two different tokens of the line (the second signal skips
+// one token): one line then yields two samples whose stamps differ by less
+// than a millisecond, by more, or not at all.
+func ForceTwoStamps(c *CfgGen) bool {
+	r := &c.Roles[0]
+	if r.Extends != "" || r.NInherited != 0 || len(r.Sigs) < 2 {
+		return false
+	}
+	fix := func(sigs []SigDef) {
+		for j := 0; j < 2 && j < len(sigs); j++ {
+			sigs[j].Group = "deltasecs"
+			sigs[j].CustomTs = false
+		}
+		sigs[1].Skip = 1
+	}
+	fix(r.Sigs)
+	for i := range c.Roles {
+		if c.Roles[i].Extends == r.Name && c.Roles[i].NInherited >= 2 {
+			fix(c.Roles[i].Sigs)
+		}
+	}
+	return true
 }
